@@ -175,6 +175,12 @@ func (c *ConcRunner) step(tid int, st *prog.Step) {
 		if err != nil {
 			rec.Err = err.Error()
 		}
+	case prog.SClose:
+		var err error
+		rec.Panic = Safe(func() { err = db.Close() })
+		if err != nil {
+			rec.Err = err.Error()
+		}
 	case prog.SBackup:
 		var err error
 		rec.Panic = Safe(func() { err = db.Backup(st.Dir) })
